@@ -41,6 +41,18 @@ Section Statements.
     mrt [Some x] [None] [Some y] = [Some y] /\ mrt [Some y] [None] [Some x] = [Some y].
   Proof. intros x y HA Hxy. exact (mrt_fast_forward_gen eqb ancb eqb_spec None x y HA eq_refl Hxy). Qed.
 
+  (** "Only when safe", completely, for three pairwise distinct normal targets (the base may
+      also be absent): the merge resolves exactly when one side is an ancestor of the other
+      and the base is absent or an ancestor of that ancestor side — then the descendant side
+      is returned; in every other case the three-term conflict is recorded, no side picked. *)
+  Theorem C12_normal_spec : forall (b0 : T) (x y : A),
+    x <> y -> Some x <> b0 -> Some y <> b0 ->
+    mrt [Some x] [b0] [Some y] =
+      if ancb x y then (if remove_ok ancb x b0 then [Some y] else [Some x; b0; Some y])
+      else if ancb y x then (if remove_ok ancb y b0 then [Some x] else [Some x; b0; Some y])
+      else [Some x; b0; Some y].
+  Proof. exact (mrt_normal eqb ancb eqb_spec). Qed.
+
   (** The result never names a commit (or absence) that none of the inputs named. *)
   Theorem C12_no_invention : forall (left base right : list T) (t : T),
     odd left -> odd base -> odd right ->
@@ -48,7 +60,7 @@ Section Statements.
   Proof. intros l b r t. exact (mrt_no_invention eqb ancb eqb_spec l b r t). Qed.
 
   (** The [find_pair_to_remove] loop ends because no pair is left, never because the model's
-      fuel [length c] ran out: the result admits no further pair and any larger fuel gives the
+      fuel [length c] ran out: no further pair can be found in the result and any larger fuel gives the
       same result. *)
   Theorem C12_terminates : forall (c : list T),
     odd c ->
@@ -149,6 +161,7 @@ Proof. vm_compute. repeat split. Qed.
 
 Print Assumptions C12_unchanged_side.
 Print Assumptions C12_fast_forward.
+Print Assumptions C12_normal_spec.
 Print Assumptions C12_no_invention.
 Print Assumptions C12_terminates.
 Print Assumptions C12_else_conflict.
